@@ -72,7 +72,7 @@ except FileNotFoundError:
 # depend on an environment stub; for the others the solver's counterexample is reported with the
 # concrete-playback test attached and `reproduced_natively: null`.
 import re as _re
-_NO_NATIVE = _re.compile(r"^(c02_|c06_expire|c06_setex|c08_flushdb|c01_rename|c09_ttl|c09_e2e|c15_auto_id|c15_cached|c15_add|c13_|c16_|c04_|c19_|c10_wfault|c09_rec|c10_total|c10_alloc|c09_list_marker)")
+_NO_NATIVE = _re.compile(r"^(c01_incrby|c02_|c06_expire|c06_setex|c08_flushdb|c01_rename|c09_ttl|c09_e2e|c15_auto_id|c15_cached|c15_add|c13_|c16_|c04_|c19_|c10_wfault|c09_rec|c10_total|c10_alloc|c09_list_marker)")
 for _h in HARNESSES:
     if _NO_NATIVE.search(_h.name):
         _h.native_replay = False
